@@ -102,6 +102,37 @@ func ruleResolveSwitch(w *World, r *Report, rSingleton, rScoped, rTransient stri
 		con := fi.Name() + "#Scoped"
 		rg := reg("Scoped")
 		fl := rg.fl
+		// `case Scoped: return s.resolveScoped(key, descriptor)`: the clause lives in a private method
+		top, topInfo := fi, info
+		info := info
+		keyParamOf := func(name string) bool {
+			for _, f := range top.Decl.Type.Params.List {
+				for _, nm := range f.Names {
+					if nm.Name == name {
+						return true
+					}
+				}
+			}
+			return false
+		}
+		if h, call := clauseDelegate(w, d, rg.fl, rg.must, "Scoped"); h != nil {
+			r.Analysed(h)
+			// the helper's parameters that receive resolve's own parameters
+			bound := map[string]bool{}
+			k := 0
+			for _, f := range h.Decl.Type.Params.List {
+				for _, nm := range f.Names {
+					if k < len(call.Args) {
+						if o := objOf(topInfo, call.Args[k]); o != nil && keyParamOf(o.Name()) {
+							bound[nm.Name] = true
+						}
+					}
+					k++
+				}
+			}
+			keyParamOf = func(name string) bool { return bound[name] }
+			info, fl = h.Pkg.TypesInfo, w.FlowOf(h)
+		}
 		// createInstance dominated by a miss of getInstance(key) on the same key; the hit edge returns the cached value
 		hitVars := map[types.Object]struct {
 			val types.Object
@@ -181,14 +212,7 @@ func ruleResolveSwitch(w *World, r *Report, rSingleton, rScoped, rTransient stri
 		}
 		// the key looked up is the key being resolved (a parameter of resolve)
 		for _, hv := range hitVars {
-			isParam := false
-			for _, f := range fi.Decl.Type.Params.List {
-				for _, nm := range f.Names {
-					if nm.Name == hv.key {
-						isParam = true
-					}
-				}
-			}
+			isParam := keyParamOf(hv.key)
 			if !isParam {
 				bad = "the cache is consulted with " + hv.key + ", not with the key being resolved"
 			}
@@ -1085,6 +1109,27 @@ func ruleFieldFilters(w *World, r *Report, rule string) {
 					}
 				}
 			}
+			// or: deps[i] = dep into a slice made with len(Parameters), at the loop's own index
+			ast.Inspect(il.Body, func(m ast.Node) bool {
+				as, isAs := m.(*ast.AssignStmt)
+				if !isAs || len(as.Lhs) != 1 {
+					return true
+				}
+				ix, isIx := unparen(as.Lhs[0]).(*ast.IndexExpr)
+				if !isIx || il.Index == nil || objOf(info, ix.Index) != il.Index {
+					return true
+				}
+				mk, isMk := resolveLocal(info, bd.Decl.Body, ix.X, 2).(*ast.CallExpr)
+				if !isMk || exprStr(mk.Fun) != "make" || len(mk.Args) != 2 {
+					return true
+				}
+				if ln, isLen := unparen(mk.Args[1]).(*ast.CallExpr); isLen && exprStr(ln.Fun) == "len" && len(ln.Args) == 1 && isFieldNamed(info, ln.Args[0], "Parameters") {
+					if conds, _ := controllingCondsInfo(info, il.Body, as.Pos()); len(conds) == 0 {
+						unconditional = true
+					}
+				}
+				return true
+			})
 			noSkip := true
 			inspectNoLit(il.Body, func(m ast.Node) bool {
 				if b, isB := m.(*ast.BranchStmt); isB && (b.Tok == token.CONTINUE || b.Tok == token.BREAK) {
@@ -1878,4 +1923,42 @@ func typeFieldSetBefore(w *World, fi *FuncInfo, stmt ast.Node, base ast.Expr, tf
 	}})
 	nd := fl.NodeContaining(stmt.Pos())
 	return nd != nil && sol.Before[nd].Has("typ-set")
+}
+
+// clauseDelegate: in the flow of the dispatching function restricted to lifetime
+// L, everything after the dispatch is a single `return recv.helper(args…)` to a
+// private method of the same receiver: the clause is that method's body.
+func clauseDelegate(w *World, d *ltDispatch, fl *Flow, must *Sol, L string) (*FuncInfo, *ast.CallExpr) {
+	info := d.fi.Pkg.TypesInfo
+	var rets []*ast.ReturnStmt
+	for _, n := range fl.Nodes() {
+		if ret, ok := n.(*ast.ReturnStmt); ok && must.Before[n].Has("lt:"+L) {
+			rets = append(rets, ret)
+		}
+	}
+	if len(rets) != 1 || len(rets[0].Results) != 1 {
+		return nil, nil
+	}
+	c, ok := unparen(rets[0].Results[0]).(*ast.CallExpr)
+	if !ok {
+		return nil, nil
+	}
+	cal := callee(info, c)
+	if cal == nil || cal.Exported() {
+		return nil, nil
+	}
+	h := w.Decls[cal]
+	if h == nil || h.Pkg != d.fi.Pkg || h == d.fi || h.Decl.Recv == nil || d.fi.Decl.Recv == nil {
+		return nil, nil
+	}
+	rcv, _, isM := methodCall(c)
+	if !isM || len(d.fi.Decl.Recv.List[0].Names) != 1 || objOf(info, rcv) != info.Defs[d.fi.Decl.Recv.List[0].Names[0]] {
+		return nil, nil
+	}
+	for _, a := range c.Args {
+		if objOf(info, a) == nil {
+			return nil, nil
+		}
+	}
+	return h, c
 }
